@@ -403,6 +403,8 @@ def check_case(case):
     delayed = 0
     worst = 0.0
     worst_mono = -1.0
+    worst_delay = 0.0
+    worst_lag = 0.0
     worst_c = 0.0
     if alg is not None:
         r.check(alg.x is x, "identity:x-rebound", "alg.x is not the caller's array after construction")
@@ -456,7 +458,11 @@ def check_case(case):
                 else:
                     delayed += 1
                     ref = eopt[(k + 1) // 2]
-                    r.check(ek <= 1.01 * ref + 1e-9 * e0 + floor, "krylov:delayed-bound",
+                    db = 1.01 * ref + 1e-9 * e0 + floor
+                    worst_delay = max(worst_delay, ek / db if db > 0 else 0.0)
+                    jj = max([j for j in range(0, k + 1) if ek <= 1.01 * eopt[j] + 1e-9 * e0 + floor] or [0])
+                    worst_lag = max(worst_lag, k / max(jj, 0.5))
+                    r.check(ek <= db, "krylov:delayed-bound",
                             "update %d: ||e_k||_A = %.3e > 1.01 ||e*_%d||_A = %.3e (kappa_eff=%.3g)"
                             % (k, ek, (k + 1) // 2, ref, kap_eff))
             elif k <= kmax:
@@ -521,7 +527,7 @@ def check_case(case):
         r.label("stopped-by-tol")
     if grade < min(n, kmax):
         r.label("krylov-grade<n")
-    r.notes = {"worst_ratio": worst, "worst_mono": worst_mono, "worst_resid": worst_c, "kappa_eff": kap_eff,
+    r.notes = {"worst_ratio": worst, "worst_delay": worst_delay, "worst_lag": worst_lag, "worst_mono": worst_mono, "worst_resid": worst_c, "kappa_eff": kap_eff,
                "asserted": asserted, "updates": updates, "kappa_A": normA / lminA, "kappa_P": kap_P}
     r.nontrivial = n >= 3 and asserted >= 2 and (cplx or case["P"]["kind"] != "none" or clustered)
     r.sig = "pd|%d|%s|%s|%s|%s|%s|%s|%d|%g|%s" % (
